@@ -40,7 +40,7 @@ func ZZC19K1() {
 // the column is the byte column of any character: the shown piece starts and ends at character boundaries, the caret
 // column still addresses the reported character, and the length bound holds.
 func ZZC19Utf8Long() {
-	line := strings.Repeat("é", 150) + "x.f = 12"
+	line := strings.Repeat("À", 100) + strings.Repeat("é", 50) + "x.f = 12" // C3 80 and C3 A9
 	col := nd.Int("col")
 	nd.Assume(1 <= col)
 	nd.Assume(col <= len(line))
